@@ -2,7 +2,10 @@
 //! svgdx-mode documents that route hostile strings into every output sink.
 use crate::rng::Rng;
 
-const PIECES: [&str; 34] = [
+const PIECES: [&str; 41] = [
+    // characters next to the ones XML excludes, in code point and in UTF-8 bytes (U+xFFE / U+xFFF end in BF BE / BF BF
+    // like U+FFFE / U+FFFF; the plane-final non-characters are XML characters)
+    "\u{6FFE}", "\u{5FFF}", "\u{FFE}", "\u{1FFFE}", "\u{FFFD}", "\u{D7FF}\u{E000}", "\u{10FFFF}",
     "a", "b", "Z", "1", " ", " ", "é", "😀", "&", "<", ">", "\"", "'", "-", "--", "]]>", "]]", "\u{85}", "\u{2028}",
     ";", "#", "(", ")", "&amp;", "&lt;", "&#60;", "&quot;", "x=y", "/*", "*/", "<!--", "-->", "<![CDATA[", "?>",
 ];
